@@ -44,6 +44,9 @@ pub fn check(sc: &Scenario, res: &RunResult) -> Vec<Violation> {
         let readable = reg.map(|r| r.readable()).unwrap_or(false) && !util::no_remote(w, sp);
         if readable {
             let (_lo, hi) = util::mapping_hull(w, sp).unwrap();
+            // pages above the stack pointer that no strategy can read (the installed guard of the next
+            // stack in the same mapping) end what can be captured
+            let hi = w.no_remote.iter().map(|(s0, _)| *s0).filter(|s0| *s0 > sp && *s0 < hi).min().unwrap_or(hi);
             if size == 0 {
                 out.push(v("C06", "stack-empty", format!("thread {} (position {}): stack pointer {:#x} is in readable memory but no stack was captured", tid, idx, sp)));
                 continue;
